@@ -31,6 +31,14 @@ class Case:
         return d
 
 
+class MultiRankCase:
+    """A scenario that needs `world` real processes: build(rank, world) runs inside every rank after
+    torch.distributed is initialised (all ranks use the same seed, so collective set-up calls such as
+    new_group happen in the same order) and returns the Case that rank checks, or None."""
+    def __init__(self, world, build, note=''):
+        self.world, self.build, self.note = world, build, note
+
+
 # ----------------------------------------------------------------------------- primitive kinds
 class _CallableObj:
     def __init__(self, c):
@@ -714,3 +722,73 @@ def _gen_load(variant):
 
 _gen_load('inverse')
 _gen_load('eigen')
+
+
+# ----------------------------------------------------------------------------- communicator (multi-rank)
+def _subgroups(rng, world):
+    """A deterministic list of rank lists (every rank creates all of them, in this order)."""
+    out = []
+    for _ in range(rng.choice([1, 2, 3])):
+        k = rng.randint(1, world)
+        out.append(sorted(rng.sample(range(world), k)))
+    return out
+
+
+@gen('kfac.distributed:TorchDistributedCommunicator.group_ranks')
+def _gen_group_ranks(rng, model):
+    world = rng.choice([1, 2, 3, 4])
+    seed = rng.randrange(1 << 30)
+
+    def build(rank, world):
+        import random
+        import torch.distributed as dist
+        from kfac.distributed import TorchDistributedCommunicator
+        r = random.Random(seed)
+        lists = _subgroups(r, world)
+        groups = [dist.new_group(l) for l in lists]
+        pick = r.randrange(len(groups) + 1)
+        group = None if pick == len(groups) else groups[pick]
+        if group is not None and rank not in lists[pick]:
+            return None
+        tdc = TorchDistributedCommunicator()
+        return Case(TorchDistributedCommunicator.group_ranks, {'self': tdc, 'group': group}, [tdc, group], {},
+                    note=f'groups {lists}, queried {"world" if group is None else lists[pick]}')
+    return MultiRankCase(world, build, note=f'world {world}, seed {seed}')
+
+
+def _rand_tensor(r, dtypes=None):
+    import torch
+    dt = r.choice(dtypes or [torch.float32, torch.float64, torch.float16])
+    shape = r.choice([(2, 2), (3,), (2, 3), (1,), (4, 4)])
+    g = torch.Generator().manual_seed(r.randrange(1 << 30))
+    return torch.randn(*shape, generator=g).to(dt)
+
+
+@gen('kfac.distributed:AllreduceTensorBucket.allreduce')
+def _gen_bucket_allreduce(rng, model):
+    world = rng.choice([2, 2, 3])
+    seed = rng.randrange(1 << 30)
+
+    def build(rank, world):
+        import random
+        import torch.distributed as dist
+        from kfac.distributed import AllreduceTensorBucket
+        r = random.Random(seed)
+        lists = _subgroups(r, world)
+        groups = [dist.new_group(l) for l in lists]
+        pick = r.randrange(len(groups) + 1)
+        group = None if pick == len(groups) else groups[pick]
+        n = r.choice([0, 1, 2, 3])
+        shapes_seed = r.randrange(1 << 30)
+        if group is not None and rank not in lists[pick]:
+            return None
+        b = AllreduceTensorBucket(group)
+        rr = random.Random(shapes_seed)           # same shapes / dtypes on every rank, different values
+        for _ in range(n):
+            t = _rand_tensor(rr)
+            b.add_tensor(t + rank)
+        if r.random() < 0.1:
+            b._communicated = True
+        return Case(AllreduceTensorBucket.allreduce, {'self': b}, [b], {},
+                    note=f'group {"world" if group is None else lists[pick]}, {n} tensors of dtypes {[str(t.dtype) for t in b._tensors]}')
+    return MultiRankCase(world, build, note=f'world {world}, seed {seed}')
